@@ -695,7 +695,13 @@ class VerilogGenerator:
             link = ""
             
             for paramName in paramNames:
-                str += link + 'parameter ' +  paramName
+                # the value given to the object is the default of the declaration
+                # (a declaration without a value is not legal Verilog, and the top
+                # module has nobody to override it)
+                paramValue = obj.getParameterValue(paramName)
+                while (isinstance(paramValue, Parameter)):
+                    paramValue = paramValue.obj.parameters[paramValue.name]
+                str += link + 'parameter ' +  paramName + ' = {}'.format(paramValue)
                 link = ',\n\t'
                 
             str += ')\n'
